@@ -40,6 +40,7 @@ type Options struct {
 	IdleTimeout     time.Duration
 	ReconnectBase   time.Duration
 	ReconnectMax    time.Duration
+	ConnectTimeout  time.Duration
 	PreparedCache   proxycore.PreparedCache
 	RefreshHook     func()
 }
@@ -101,6 +102,9 @@ func Start(o Options) (*Env, error) {
 	if o.IdleTimeout == 0 {
 		o.IdleTimeout = 2 * time.Hour
 	}
+	if o.ConnectTimeout == 0 {
+		o.ConnectTimeout = 2 * time.Second
+	}
 	if o.ReconnectBase == 0 {
 		o.ReconnectBase = 20 * time.Millisecond
 	}
@@ -135,7 +139,7 @@ func Start(o Options) (*Env, error) {
 		NumConns:          o.NumConns,
 		HeartBeatInterval: o.HeartBeat,
 		IdleTimeout:       o.IdleTimeout,
-		ConnectTimeout:    2 * time.Second,
+		ConnectTimeout:    o.ConnectTimeout,
 		IdempotentGraph:   o.IdempotentGraph,
 		RPCAddr:           o.RPCAddr,
 		DC:                o.DC,
